@@ -1,6 +1,7 @@
 package sim
 
 import (
+	"strconv"
 	"encoding/json"
 	"fmt"
 	"strings"
@@ -30,6 +31,17 @@ var rejectedInputs = []string{
 	"(1 +\n\n2 @\n3)", "(1 +\n2 +\n\n\n3 @\n4)", "(1 +\n", "[1,\n\n\n 2,\n 3 @]", "(\r\n\r\n1 +\r\n @)", "{'a':\n\n\t\t1 @}", "(力量 +\n\n  敏捷 @ 3)", "[1,\n2,\n\n3,\n\n\n4 4]", "(\n\n\n\n)", "`{\n\n1 +}`",
 	"力量 + ", "1 +\n  2 +\n  (3", "'多字节文本' + (", "abc\ndef\n  ghi + ", "\n\n1 +", "x = 1\ny = (2", "# bad", "1 ? ", "[1..", "a.b.", "d +",
 	strings.Repeat("x", 70) + " + (", strings.Repeat("长", 30) + " + ", "1 +" + strings.Repeat(" ", 80), "\t\t(", "\"\\", "1d", "^st",
+}
+
+// brokenSnapshot: stored variables with bodies that do not parse (multi-line, multi-byte).
+const brokenSnapshot = `{"bad1":{"t":5,"v":{"expr":"(1 + 2"}},"bad2":{"t":5,"v":{"expr":"(力量 +\n\n  (3 @ 4)"}},"badf":{"t":8,"v":{"expr":"[1, @","name":"badf","params":[]}},"ok1":{"t":0,"v":3}}`
+
+var brokenBodyText = map[string]string{"bad1": "(1 + 2", "bad2": "(力量 +\n\n  (3 @ 4)", "badf()": "[1, @"}
+
+// usesBrokenBody reports whether a program reads one of brokenSnapshot's unparsable bodies (their
+// syntax errors are positioned within the body's text, not the command's).
+func usesBrokenBody(src string) bool {
+	return strings.Contains(src, "bad1") || strings.Contains(src, "bad2") || strings.Contains(src, "badf")
 }
 
 // lazyTexts compile differently under different flag settings (dice families, bitwise, statements).
@@ -70,8 +82,21 @@ func c11GenMode(mode string) func(seed uint64, tier string) any {
 			g := NewProgGen(r.Fork(), o)
 			ts := SchedTaskSpec{Cfg: cfg}
 			nc := r.Range(2, 5)
+			brokenBodies := r.Chance(1, 4)
+			if brokenBodies {
+				// variables restored from a stored snapshot whose function / computed bodies no longer parse
+				// (compiled on first use, in a sub-VM); the host may change its error language in between
+				ts.Cmds = append(ts.Cmds, Cmd{Kind: "restore", Src: brokenSnapshot})
+			}
 			for c := 0; c < nc; c++ {
 				var src string
+				if brokenBodies && r.Chance(1, 2) {
+					if r.Chance(1, 2) {
+						ts.Cmds = append(ts.Cmds, Cmd{Kind: "lang", Src: strconv.Itoa(r.Intn(3))})
+					}
+					ts.Cmds = append(ts.Cmds, Cmd{Kind: "run", Src: Pick(r, []string{"bad1", "1 + bad1 * 2", "badf()", "ok1 + badf()", "bad2", "`{bad1}`", "ok1"})})
+					continue
+				}
 				switch {
 				case mode == "c19" && r.Chance(2, 3), mode == "c11" && r.Chance(1, 5):
 					src = Pick(r, rejectedInputs)
@@ -258,20 +283,34 @@ func c11Exec(raw json.RawMessage, res *RunResult) {
 	// 3. oracles
 	var key []string
 	for i, t := range sc.Tasks {
+		lang := t.Cfg.Lang
 		for j := range t.Cmds {
 			a, b := alone[i][j], together[i][j]
+			if t.Cmds[j].Kind == "lang" {
+				lang, _ = strconv.Atoi(t.Cmds[j].Src)
+				res.Fault("language_switched_on_used_vm")
+				continue
+			}
 			key = append(key, t.Cmds[j].Src)
 			dg.Add("task", fmt.Sprint(i), fmt.Sprint(j), b.Key())
 			if b.Err != "" {
-				if ok, why := errorLanguageOK(b.Err, t.Cfg.Lang); !ok {
-					res.Violate("lang-leak", "task %d (language %d) got an error text in another language under the schedule: %s\n  src=%q\n  text=%q", i, t.Cfg.Lang, why, t.Cmds[j].Src, b.Err)
+				if ok, why := errorLanguageOK(b.Err, lang); !ok {
+					res.Violate("lang-leak", "task %d (language %d at this command) got an error text in another language under the schedule: %s\n  src=%q\n  text=%q", i, lang, why, t.Cmds[j].Src, b.Err)
 				}
 				if sc.Mode == "c19" {
-					if ok, why := errorGeometryOK(b.Err, t.Cmds[j].Src); !ok {
+					if usesBrokenBody(t.Cmds[j].Src) {
+						res.Probe("syntax_error_inside_restored_body")
+						// the position refers to the body's text
+						if body, known := brokenBodyText[t.Cmds[j].Src]; known {
+							if ok, why := errorGeometryOK(b.Err, body); !ok {
+								res.Violate("geometry", "error position inconsistent with the restored body's text: %s\n  src=%q body=%q\n  text=%q", why, t.Cmds[j].Src, body, b.Err)
+							}
+						}
+					} else if ok, why := errorGeometryOK(b.Err, t.Cmds[j].Src); !ok {
 						res.Violate("geometry", "error position inconsistent with input: %s\n  src=%q\n  text=%q", why, t.Cmds[j].Src, b.Err)
 					}
-					if ok, why := errorLanguageOK(a.Err, t.Cfg.Lang); !ok {
-						res.Violate("lang-wrong-alone", "task %d (language %d) alone: %s\n  src=%q\n  text=%q", i, t.Cfg.Lang, why, t.Cmds[j].Src, a.Err)
+					if ok, why := errorLanguageOK(a.Err, lang); !ok {
+						res.Violate("lang-wrong-alone", "task %d (language %d at this command) alone: %s\n  src=%q\n  text=%q", i, lang, why, t.Cmds[j].Src, a.Err)
 					}
 					res.Probe("rejected_input")
 				}
@@ -371,7 +410,7 @@ func init() {
 		ID: "C19", Level: "exploration", Race: true, Isolation: 40,
 		QuickRuns: 2500, ThoroughRuns: 80000,
 		Gen: c11GenMode("c19"), Exec: c11Exec, Shrink: c11Shrink,
-		Rule: "one case = 2-4 goroutines with error languages 0/1/2 (a third of them with a parse budget of 3-600 expressions: parses abandoned at arbitrary depth) evaluating mostly rejected inputs under the seeded scheduler, with preemption points between the package-level language write (Parse) and its read (error formatter). Oracles: each syntax-error text is purely in its VM's language and equals the text the same input gives alone; line/column/quoted line/caret arithmetic is monitored on the rejected inputs that occur. distinct = distinct (input texts, context-switch sequence); non-trivial = at least 2 context switches",
+		Rule: "a quarter of the tasks first restore variables from a snapshot whose function / computed bodies do not parse and may switch their error language between evaluations (the text must follow the language in force at that command). One case = 2-4 goroutines with error languages 0/1/2 (a third of them with a parse budget of 3-600 expressions: parses abandoned at arbitrary depth) evaluating mostly rejected inputs under the seeded scheduler, with preemption points between the package-level language write (Parse) and its read (error formatter). Oracles: each syntax-error text is purely in its VM's language and equals the text the same input gives alone; line/column/quoted line/caret arithmetic is monitored on the rejected inputs that occur. distinct = distinct (input texts, context-switch sequence); non-trivial = at least 2 context switches",
 		Real: []string{"dicescript parser and error formatter under -race with tag verif"},
 		Stub: []string{"goroutine scheduling (decided by the simulator at yield hooks)"},
 		Assumptions: []string{"line/column/caret arithmetic is only monitored on generated rejected inputs, not claimed as covered for all inputs"},
